@@ -486,7 +486,7 @@ Qed.
 
 (* the state at registration: every running slot names a board relay, nothing was ever on the wire *)
 Definition BI (s : st) : Prop := SRc s /\ wired (outs s) = [].
-Lemma BI_restore s ar : BI s -> BI (restore_relay e cc s ar).
+Lemma BI_restore e0 s ar : BI s -> BI (restore_relay e0 cc s ar).
 Proof.
   intros [SR Wd]. unfold restore_relay. destruct ar as [a r].
   assert (K : forall hi s0, BI s0 -> BI (relay_hi cc (r_gpio r) hi s0)).
@@ -495,12 +495,12 @@ Proof.
     rewrite O1, wired_app, W0, W1. reflexivity. }
   destruct (_ || _).
   - apply K. destruct (_ && _); [|split; auto].
-    destruct (RR_sdt cc Wc NDg NDc e (r_chan r) (s8 (getz (ram_relay s) a)) (s32 (getz (ram_t2 s) (r_chan r))) 0 s SR)
+    destruct (RR_sdt cc Wc NDg NDc e0 (r_chan r) (s8 (getz (ram_relay s) a)) (s32 (getz (ram_t2 s) (r_chan r))) 0 s SR)
       as (S1 & _ & _ & _ & qa & add & _ & O1 & W1 & _).
     split; [auto|]. rewrite O1, wired_app, Wd, W1. reflexivity.
   - destruct (hasf _ _); [apply K|]; split; auto.
 Qed.
-Lemma BI_fold l : forall s, BI s -> BI (fold_left (restore_relay e cc) l s).
+Lemma BI_fold e0 l : forall s, BI s -> BI (fold_left (restore_relay e0 cc) l s).
 Proof. induction l as [|x l IH]; intros s H; cbn [fold_left]; auto. apply IH, BI_restore, H. Qed.
 Lemma BI_start : BI (start6 e c).
 Proof.
@@ -509,7 +509,7 @@ Proof.
   assert (B5 : BI s5).
   { split; [|reflexivity]. intros x Hx Ax. unfold s5 in Hx. cbn in Hx.
     repeat (destruct Hx as [<-|Hx]; [discriminate|]). contradiction. }
-  pose proof (BI_fold l s5 B5) as [SR6 W6']. set (s6 := fold_left (restore_relay e cc) l s5) in *.
+  pose proof (BI_fold false l s5 B5) as [SR6 W6']. set (s6 := fold_left (restore_relay false cc) l s5) in *.
   split.
   - intros x Hx. unfold uptime_usec in Hx. cbn [fst slots emit set_outs set_seqc set_upl set_upc] in Hx. auto.
   - unfold uptime_usec. cbn [fst outs emit set_outs set_seqc set_upl set_upc wired]. exact W6'.
